@@ -93,6 +93,11 @@ def gen(tier, rng):
         out.append("os.views cer %s" % hx(os_cons([os_cons([os_prim(bytes(n))], True)], True)))
     out.append("os.views cer %s" % hx(os_cons([], True)))
     out.append("os.views cer %s" % hx(os_cons([], False)))
+    # truncated encodings of this property's typed values (scripts.truncated_leaves)
+    import scripts as _scripts
+    for (_m, _d, _sc) in _scripts.truncated_leaves([0x04]):
+        for _src in ("slice", "stingy"):
+            out.append("run %s %s %s %s" % (_m, _src, hx(_d), _sc))
     return out
 
 SRC = {}
